@@ -123,9 +123,6 @@ Proof. intros. reflexivity. Qed.
 Definition f64_of_bits := of_bits b64.
 
 (* float -> uint64: the region where saturation fails *)
-Definition uint64_top_guard (i o : dtype) (v : num) : bool :=
-  negb (negb (is_int i) && dtype_eqb o U64 && Qle_bool (inject_Z two64z) (num2Q v)).
-
 (* 2.0**64 as float64 *)
 Definition w_two64 : num := NF (of_bits b64 4895412794951729152).
 
@@ -139,10 +136,6 @@ Proof.
 Qed.
 
 (* int64 -> uint64 goes through float64 *)
-Definition int64_via_float_guard (i o : dtype) (v : num) : bool :=
-  negb (dtype_eqb i I64 && dtype_eqb o U64 &&
-        match v with NI z => 2 ^ 53 <? z | NF _ => false end).
-
 Lemma int64_via_float_refuted :
   exists i o v, int64_via_float_guard i o v = false /\ num_ok i v = true /\
     convert_scalar i o v <> nearest_sat o (num2Q v) /\
@@ -153,11 +146,6 @@ Proof.
 Qed.
 
 (* float64 -> float32 overflows to infinity *)
-Definition f32_overflow_bound : Q := inject_Z (2 ^ 128 - 2 ^ 103).
-Definition float32_overflow_guard (i o : dtype) (v : num) : bool :=
-  negb (dtype_eqb i F64 && dtype_eqb o F32 &&
-        match Qcompare (Qabs (num2Q v)) f32_overflow_bound with Lt => false | _ => true end).
-
 (* 1e39 as float64 *)
 Definition w_1e39 : num := NF (of_bits b64 5183643171103440896).
 
